@@ -27,7 +27,15 @@ type SharedJ struct {
 }
 
 func (s SharedJ) ion() ion.SharedSymbolTable {
-	t := ion.NewSharedSymbolTable(s.Name, s.Version, s.Symbols)
+	// the table must own its symbols: the caller's slice (with spare capacity) is
+	// overwritten right after the constructor returns
+	tmp := make([]string, len(s.Symbols), len(s.Symbols)+3)
+	copy(tmp, s.Symbols)
+	t := ion.NewSharedSymbolTable(s.Name, s.Version, tmp)
+	for i := range tmp {
+		tmp[i] = "scribbled"
+	}
+	_ = append(tmp, "more")
 	if s.MaxID >= 0 {
 		t = t.Adjust(uint64(s.MaxID))
 	}
@@ -47,6 +55,23 @@ func (s SharedJ) slots() []refbin.Slot {
 		}
 	}
 	return out
+}
+
+// localTable is NewLocalSymbolTable from slices the caller overwrites afterwards.
+func localTable(imps []ion.SharedSymbolTable, locals []string) ion.SymbolTable {
+	ti := make([]ion.SharedSymbolTable, len(imps), len(imps)+2)
+	copy(ti, imps)
+	tl := make([]string, len(locals), len(locals)+3)
+	copy(tl, locals)
+	t := ion.NewLocalSymbolTable(ti, tl)
+	for i := range tl {
+		tl[i] = "scribbled"
+	}
+	for i := range ti {
+		ti[i] = ion.NewSharedSymbolTable("scribbled", 1, []string{"scribbled"})
+	}
+	_ = append(tl, "more")
+	return t
 }
 
 func ionSSTs(ss []SharedJ) []ion.SharedSymbolTable {
@@ -70,6 +95,8 @@ type C04Case struct {
 	Picks   []int           `json:"picks"`
 	SSTs    []SharedJ       `json:"ssts"`
 	Batches [][]model.Value `json:"batches"`
+	// Quiet: the text writers are created with TextWriterQuietFinish
+	Quiet bool `json:"quiet,omitempty"`
 }
 
 var modeNames = []string{"text", "pretty", "binary", "binary-fixed-lst"}
@@ -81,7 +108,7 @@ func fixedLST(c C04Case) ion.SymbolTable {
 	for _, b := range c.Batches {
 		all = append(all, b...)
 	}
-	return ion.NewLocalSymbolTable(ionSSTs(c.SSTs), refbin.CollectSymbols(all))
+	return localTable(ionSSTs(c.SSTs), refbin.CollectSymbols(all))
 }
 
 func runWriterCase(c C04Case) (out []byte, all []model.Value, err error) {
@@ -90,9 +117,17 @@ func runWriterCase(c C04Case) (out []byte, all []model.Value, err error) {
 		var w ion.Writer
 		switch c.Mode {
 		case 0:
-			w = ion.NewTextWriter(&buf, ionSSTs(c.SSTs)...)
+			if c.Quiet {
+				w = ion.NewTextWriterOpts(&buf, ion.TextWriterQuietFinish, ionSSTs(c.SSTs)...)
+			} else {
+				w = ion.NewTextWriter(&buf, ionSSTs(c.SSTs)...)
+			}
 		case 1:
-			w = ion.NewTextWriterOpts(&buf, ion.TextWriterPretty, ionSSTs(c.SSTs)...)
+			if c.Quiet {
+				w = ion.NewTextWriterOpts(&buf, ion.TextWriterPretty|ion.TextWriterQuietFinish, ionSSTs(c.SSTs)...)
+			} else {
+				w = ion.NewTextWriterOpts(&buf, ion.TextWriterPretty, ionSSTs(c.SSTs)...)
+			}
 		case 2:
 			w = ion.NewBinaryWriter(&buf, ionSSTs(c.SSTs)...)
 		default:
@@ -132,7 +167,7 @@ func runC04(c C04Case) string {
 		st.Discard("writer_refused: " + firstLine(werr.Error(), 60))
 		return ""
 	}
-	st.Eval(nt, model.Digest(all)^uint64(c.Mode+1)*0x9E3779B97F4A7C15^uint64(len(c.SSTs))<<7^uint64(len(c.Batches))<<3, classes...)
+	st.Eval(nt, model.Digest(all)^uint64(c.Mode+1)*0x9E3779B97F4A7C15^uint64(len(c.SSTs))<<7^uint64(len(c.Batches))<<3^uint64(btoi(c.Quiet))<<11, classes...)
 	st.Sample(func() string {
 		return fmt.Sprintf("mode=%s ssts=%d batches=%d vals=%s", modeNames[c.Mode], len(c.SSTs), len(c.Batches), model.SeqString(all))
 	})
@@ -195,16 +230,44 @@ func genC04(t *rapid.T) C04Case {
 	for i := 0; i < nb; i++ {
 		c.Batches = append(c.Batches, gen.Seq(t, cfg, 5))
 	}
-	if c.Mode == 3 {
-		// a fixed table cannot express $0-free constraints differently; unknown
-		// text symbols are fine ($0), nothing to adjust
-		_ = c
-	}
+	c.Quiet = c.Mode < 2 && gen.Chance(t, 30)
 	return c
+}
+
+func btoi(b bool) int {
+	if b {
+		return 1
+	}
+	return 0
 }
 
 func TestC04(t *testing.T) {
 	p := Prop[C04Case]{ID: "C04", Sub: "independent-decode", Gen: genC04, Run: runC04, Quick: 20000, Thorough: 400000}
+	// many distinct symbols in one stream: symbol IDs around 128, 256 (and 16384 in
+	// thorough) as values, field names and annotations
+	Enumerate(t, p, "many-symbols", func(yield func(C04Case) bool) {
+		n := 300
+		if Thorough() {
+			n = 16500
+		}
+		var syms []model.Value
+		for i := 0; i < n; i++ {
+			syms = append(syms, model.SymV(model.S(fmt.Sprintf("sym_%d", i))))
+		}
+		var uses []model.Value
+		for _, k := range []int{116, 117, 118, 119, 120, 244, 245, 246, 247, 248, 16372, 16373, 16374, 16375, 16376} {
+			if k >= n {
+				continue
+			}
+			sk := model.S(fmt.Sprintf("sym_%d", k))
+			uses = append(uses, model.Int64V(int64(k)).WithAnn(sk), model.StructV(model.Field{Name: sk, Val: model.SymV(sk)}), model.SymV(sk).WithAnn(sk, model.S("sym_3")))
+		}
+		for mode := 0; mode < 4; mode++ {
+			if !yield(C04Case{Mode: mode, Batches: [][]model.Value{{model.ListV(syms...)}, uses}}) || !yield(C04Case{Mode: mode, Batches: [][]model.Value{append(append([]model.Value{}, syms...), uses...)}}) {
+				return
+			}
+		}
+	})
 	Enumerate(t, p, "boundary-pool", func(yield func(C04Case) bool) {
 		for _, v := range boundaryScalars() {
 			shapes := [][]model.Value{
